@@ -166,7 +166,7 @@ PROPS = {
     "C05": {"modules": ["jobqueue"], "assumptions": [
         "TLC, the Json/IOUtils community modules, and the harness's SimAPI semantics (resourceVersion conflicts, status sub-resource, no-op updates) are trusted",
         "Jobs carrying the JobConfig UID label without an owner reference are outside the modelled input class"]},
-    "C06": {"modules": ["jobqueue"], "assumptions": ["FIFO is judged against what the pass saw at its SyncBegin (knowledge lag, DESIGN 3.7)"]},
+    "C06": {"modules": ["jobqueue", "cron"], "assumptions": ["FIFO is judged against what the pass saw at its SyncBegin (knowledge lag, DESIGN 3.7)"]},
     "C07": {"modules": ["jobqueue"], "assumptions": ["AddAfter durations are not interpreted: a deferred re-sync may fire at any time once armed"]},
     "C15": {"modules": ["jobqueue"], "assumptions": [
         "lastScheduled/lastExecuted must cover Jobs that were in the cache of a jobconfigcontroller pass that ended successfully (DESIGN 3.7: what a status controller can know)",
@@ -234,7 +234,7 @@ FORMULAS = {
     "C20": ["C20_Converges", "C20_Quiescent", "<every formula of C02, C05-C13, C15 on runs with injected faults or crashes>"],
     "C04": ["C04_" + x for x in _PASS],
     "C05": ["C05_Admission"],
-    "C06": ["C06_Fifo", "C06_EnqueueNeverRefused", "C06_AllowNeverRefused", "C06_RefusedOnlyAtLimit", "C06_NoStuck"],
+    "C06": ["C06_Fifo", "C06_EnqueueNeverRefused", "C06_AllowNeverRefused", "C06_RefusedOnlyAtLimit", "C06_NoStuck", "C06_CronForbid"],
     "C07": ["C07_NotEarly", "C07_NotEarlyStep", "C07_IndependentStarts", "C07_RefusedOnlyWhenDue"],
     "C15": ["C15_Exact", "C15_Monotone", "C15_Covers"],
     "C08": ["C08_OneLive", "C08_Order", "C08_Delay", "C08_Gates"],
